@@ -354,6 +354,15 @@ struct StrPool {
             std::vector<S> v = at(idx(2)).split(char(u64(f[3])));
             new (mem[o]) S(std::move(v[0])); live[o] = true;
         }
+        // ---- results built through temporaries (several allocations): codecs, formatting, conversions, streams
+        else if (op == "hexenc") { new (mem[o]) S(ST::hex_encode(at(idx(2)).to_utf8())); live[o] = true; }
+        else if (op == "b64enc") { new (mem[o]) S(ST::base64_encode(at(idx(2)).to_utf8())); live[o] = true; }
+        else if (op == "hexrt") { new (mem[o]) S(S::from_validated(ST::hex_decode(ST::hex_encode(at(idx(2)).to_utf8())))); live[o] = true; }
+        else if (op == "fmt") { const S &x = at(idx(2)); new (mem[o]) S(ST::format("{}|{>8}", x, x)); live[o] = true; }
+        else if (op == "via16") { new (mem[o]) S(S::from_utf16(at(idx(2)).to_utf16())); live[o] = true; }
+        else if (op == "via32") { new (mem[o]) S(S::from_utf32(at(idx(2)).to_utf32())); live[o] = true; }
+        else if (op == "sstr") { const S &x = at(idx(2)); ST::string_stream ss; int reps = atoi(f[3].c_str());
+                                 for (int i = 0; i < reps; ++i) ss << x << 12345; new (mem[o]) S(ss.to_string()); live[o] = true; }
         else if (op == "empty") { new (mem[o]) S(); live[o] = true; }
         else if (op == "copy") { new (mem[o]) S(at(idx(2))); live[o] = true; }
         else if (op == "mctor") { new (mem[o]) S(std::move(at(idx(2)))); live[o] = true; }
